@@ -273,6 +273,7 @@ class ScriptedGenerator:
         self.quantiles = tuple(quantiles)
         self.name = name
         self._n = 0
+        self._nd = 0
 
     # -- helpers
     def _shape(self, size):
@@ -283,7 +284,14 @@ class ScriptedGenerator:
         return tuple(int(s) for s in size)
 
     def _xi(self):
-        k = self.ctx.choose("normal", self.w)
+        # the alphabet is offered in an order that rotates with the draw count: the default answer (option 0) of
+        # consecutive draws therefore runs through all letters, so a legitimate redraw-until-accepted loop in the code
+        # under test terminates on the default path instead of being handed the same letter for ever
+        n = len(self.xi)
+        off = self._nd % n
+        self._nd += 1
+        w = self.w[off:] + self.w[:off]
+        k = (self.ctx.choose("normal", w) + off) % n
         self.ctx.note("normal", self.name, self.xi[k])
         return self.xi[k]
 
